@@ -6,6 +6,8 @@ package main
 // thorough tier); (3) one instant per evaluation; (4) re-execution under four process time zones.
 
 import (
+	"google.golang.org/protobuf/proto"
+	"hash/fnv"
 	"fmt"
 	"os"
 	"os/exec"
@@ -76,7 +78,7 @@ func runTZProbe(c *Ctx) {
 func orderJobs() (srcs []string, inputs [][]fhir.Resource) {
 	r := &RNG{s: 424242}
 	g := &ResGen{r: r, maxDepth: 2, density: 70}
-	types := []string{"Patient", "Organization", "Person", "Bundle", "Practitioner", "RelatedPerson", "Encounter", "Appointment", "CareTeam", "Group", "Location", "HealthcareService", "Endpoint", "Observation", "DiagnosticReport", "Composition", "List", "Questionnaire", "QuestionnaireResponse", "ValueSet", "ConceptMap", "CodeSystem", "StructureDefinition", "Claim", "ExplanationOfBenefit", "Contract", "Medication", "MedicationKnowledge", "PlanDefinition", "ActivityDefinition"}
+	types := []string{"TestScript", "CompartmentDefinition", "CapabilityStatement", "OperationDefinition", "SearchParameter", "GraphDefinition", "Patient", "Organization", "Person", "Bundle", "Practitioner", "RelatedPerson", "Encounter", "Appointment", "CareTeam", "Group", "Location", "HealthcareService", "Endpoint", "Observation", "DiagnosticReport", "Composition", "List", "Questionnaire", "QuestionnaireResponse", "ValueSet", "ConceptMap", "CodeSystem", "StructureDefinition", "Claim", "ExplanationOfBenefit", "Contract", "Medication", "MedicationKnowledge", "PlanDefinition", "ActivityDefinition"}
 	dummy := &Ctx{rng: r, meta: Meta{Dist: map[string]int{}, LawFailCount: map[string]int{}}, seen: map[uint64]struct{}{}}
 	for _, tn := range types {
 		for k := 0; k < 2; k++ {
@@ -84,7 +86,7 @@ func orderJobs() (srcs []string, inputs [][]fhir.Resource) {
 			if res == nil {
 				continue
 			}
-			for _, e := range []string{"descendants().count()", "children().count()", "children().children().count()", "descendants().where($this is BackboneElement).children().count()"} {
+			for _, e := range []string{"descendants().count()", "children().count()", "children().children().count()", "descendants().where($this is BackboneElement).children().count()", "descendants()", "children().children()"} {
 				srcs = append(srcs, tn+"."+e)
 				inputs = append(inputs, []fhir.Resource{res})
 			}
@@ -111,7 +113,20 @@ func runOrderProbe(c *Ctx) {
 	}
 	for _, j := range order {
 		o := compileEval(srcs[j], inputs[j])
-		fmt.Printf("ORDERPROBE\t%d\t%s\t%s\n", j, srcs[j], canonOutcome(o, nil))
+		out := canonOutcome(o, nil)
+		if o.Err == nil && !o.Panicked && len(o.Coll) > 1 {
+			// a digest of the VALUES reached (the System value of every primitive), not only of the shape
+			h := fnv.New64a()
+			for _, it := range o.Coll {
+				if v, err := system.From(it); err == nil {
+					fmt.Fprintf(h, "%T|%v;", v, v)
+				} else if m, ok := it.(proto.Message); ok {
+					fmt.Fprintf(h, "%s;", m.ProtoReflect().Descriptor().FullName())
+				}
+			}
+			out = fmt.Sprintf("ok:%d items digest %x", len(o.Coll), h.Sum64())
+		}
+		fmt.Printf("ORDERPROBE\t%d\t%s\t%s\n", j, srcs[j], out)
 	}
 	c.Emit("noop", "x", false)
 }
@@ -288,6 +303,55 @@ func runC04(c *Ctx) {
 	// repeating gives the same result
 	for i, j := range jobs {
 		c.Law(evalJob(j) == want[i], "C04/repeat-differs", "repeating an evaluation gives the same result", j.src, "")
+	}
+	// ---- (2b) custom functions keep nothing between calls: nested in their own argument, and
+	// evaluated concurrently with different inputs
+	{
+		withSuffix := func(in system.Collection, suffix system.String) (system.Collection, error) {
+			if len(in) != 1 {
+				return nil, fmt.Errorf("want one input item, got %d", len(in))
+			}
+			s, _ := in[0].(system.String)
+			return system.Collection{system.String(string(s) + "-" + string(suffix))}, nil
+		}
+		for _, tc := range []struct{ src, want string }{{"'alice'.withSuffix('bob'.withSuffix('x'))", "alice-bob-x"}, {"'a'.withSuffix('b'.withSuffix('c'.withSuffix('d')))", "a-b-c-d"}} {
+			e, err := fhirpath.Compile(tc.src, fhirpath.WithFunction("withSuffix", withSuffix))
+			if err != nil {
+				continue
+			}
+			r, err := e.Evaluate([]fhir.Resource{})
+			c.Law(err == nil && len(r) == 1 && r[0] == system.String(tc.want), "C04/custom-function-state", "a custom function keeps no state between calls", tc.src, fmt.Sprint(r, err)+" want "+tc.want)
+		}
+		e, err := fhirpath.Compile("%who.withSuffix(%suffix)", fhirpath.WithFunction("withSuffix", withSuffix))
+		if err == nil {
+			var wg sync.WaitGroup
+			bad := make(chan string, 64)
+			for g := 0; g < 8; g++ {
+				wg.Add(1)
+				go func(g int) {
+					defer wg.Done()
+					who, suf := fmt.Sprintf("w%d", g), fmt.Sprintf("s%d", g)
+					for k := 0; k < 300; k++ {
+						r, err := e.Evaluate([]fhir.Resource{}, evalopts.EnvVariable("who", system.String(who)), evalopts.EnvVariable("suffix", system.String(suf)))
+						if err != nil || len(r) != 1 || r[0] != system.String(who+"-"+suf) {
+							select {
+							case bad <- fmt.Sprintf("goroutine %d: %v %v", g, r, err):
+							default:
+							}
+							return
+						}
+					}
+				}(g)
+			}
+			wg.Wait()
+			close(bad)
+			msg := ""
+			for m := range bad {
+				msg = m
+			}
+			c.Observe("custom function, 8 goroutines x 300 evaluations", true)
+			c.Law(msg == "", "C04/custom-function-state", "a custom function keeps no state between calls", "%who.withSuffix(%suffix) from 8 goroutines with different variables", msg)
+		}
 	}
 	// ---- (3) one instant
 	in := []fhir.Resource{resources[0]}
